@@ -50,8 +50,10 @@ fn bad(rep: &mut Report, sig: &str, what: String, hist: &[OneCall], at: usize) {
             })
             .collect(),
     );
+    // text handed to the sink that is not the call's own line is also a formatting fault (C01)
+    let props = if matches!(sig, "wrong-text" | "emit-count" | "emit-on-rejected") { vec!["C03", "C01"] } else { vec!["C03"] };
     rep.violation(Violation {
-        props: vec!["C03"],
+        props,
         sig: format!("calls/{}", sig),
         what: format!("call #{} of {}: {}", at, doc.render(), what),
         replay: Json::obj().set("engine", "calls").set("history", doc),
